@@ -76,7 +76,7 @@ func writeManifest() {
 			var rec struct {
 				ID string `json:"id"`
 			}
-			if json.Unmarshal(line, &rec) == nil && rec.ID != "" && props[rec.ID] == nil && !seen[rec.ID] {
+			if json.Unmarshal(line, &rec) == nil && rec.ID != "" && !readyIDs[rec.ID] && !seen[rec.ID] {
 				na = append(na, naEntry{rec.ID, "not claimed: the simulation technique applies (see DESIGN.md §3), but no check for it has been built and validated yet"})
 			}
 		}
